@@ -55,9 +55,11 @@ func concurrentPart(r *ev.Run) {
 		Name           string
 		Drain, Monitor bool
 		Router         bool
+		TwoKeeps       bool // worker and router each record a KEPT decision with a reason the cache has not seen before
 	}
-	scens := []scen{{"worker+drainer", true, false, false}, {"worker+monitor", false, true, false}, {"worker+router", false, false, true},
-		{"worker+drainer+router", true, false, true}, {"worker+monitor+drainer", true, true, false}}
+	scens := []scen{{"worker+drainer", true, false, false, false}, {"worker+monitor", false, true, false, false}, {"worker+router", false, false, true, false},
+		{"worker+drainer+router", true, false, true, false}, {"worker+monitor+drainer", true, true, false, false},
+		{"worker-keeps+router-keeps(new reasons)", false, false, false, true}}
 	r.Sharded(len(scens), func(si, sn int) {
 		sc := scens[si]
 		var c cache.TraceSentCache
@@ -79,6 +81,13 @@ func concurrentPart(r *ev.Run) {
 					l.kept, l.rate = rec.Kept(), rec.Rate()
 				}
 				return l
+			}
+			if sc.TwoKeeps {
+				// the worker records at makeDecision, router goroutines record through ProcessSpanImmediately: two kept
+				// decisions, each with a reason new to the cache, at once. Each must be answered with ITS reason.
+				vsched.Go("worker", func() { c.Record(&kt{id: "KW", rate: 2}, true, "reason-of-the-worker") })
+				vsched.Go("router", func() { c.Record(&kt{id: "KR", rate: 5}, true, "reason-of-the-router") })
+				return
 			}
 			vsched.Go("worker", func() {
 				c.Record(&kt{id: "T"}, false, "")
@@ -104,6 +113,22 @@ func concurrentPart(r *ev.Run) {
 			}
 		}, Check: func(x *vsched.Exec) string {
 			defer c.Stop()
+			if sc.TwoKeeps {
+				for _, q := range []struct {
+					id, want string
+					rate     uint
+				}{{"KW", "reason-of-the-worker", 2}, {"KR", "reason-of-the-router", 5}} {
+					rec, reason, found := c.CheckSpan(sp(q.id))
+					if !found || !rec.Kept() || rec.Rate() != q.rate {
+						return fmt.Sprintf("kept-record-invisible: %s recorded kept at rate %d, look-up answers found=%v", q.id, q.rate, found)
+					}
+					if reason != q.want {
+						return fmt.Sprintf("kept-reason-of-another-decision: %s was recorded with reason %q, the cache answers %q", q.id, q.want, reason)
+					}
+				}
+				r.Distinct("distinct_outcomes", "conc:"+sc.Name)
+				return ""
+			}
 			if !w[0].found || w[0].kept {
 				return fmt.Sprintf("dropped-record-invisible: worker recorded T as dropped and looked it up at once: %+v", w[0])
 			}
